@@ -41,6 +41,7 @@ pub fn gen(group: &str, rng: &mut Rng, n: usize, out: &mut Vec<String>) {
         "mt" => mt::gen(rng, n, out),
         "stall" => mt::gen_stall(rng, n, out),
         "wstall" => mt::gen_wstall(rng, n, out),
+        "mtclose" => mt::gen_mtclose(rng, n, out),
         _ => panic!("unknown group {}", group),
     }
 }
@@ -61,6 +62,7 @@ pub fn run(lane: &str, args: &[&str]) -> (String, Option<String>) {
         "mt" => mt::run(args),
         "stall" => mt::run_stall(args),
         "wstall" => mt::run_wstall(args),
+        "mtclose" => mt::run_mtclose(args),
         "ctl" | "exop" | "cresp" => ctl::run(lane, args),
         "filter" | "esc" | "utf8" | "entry" | "result" | "helpers" | "url" => textl::run(lane, args),
         _ => ("UNKNOWN-LANE".into(), None),
